@@ -46,6 +46,12 @@ func (ir *IntrospectionResolver) resolveSchema(schema *ast.Schema, selectionSet 
 
 	for _, f := range common.SelectionSetToFields(selectionSet, nil) {
 		switch f.Name {
+		case "description":
+			if schema.Description != "" {
+				result[f.Alias] = schema.Description
+			} else {
+				result[f.Alias] = nil
+			}
 		case "types":
 			types := []map[string]interface{}{}
 			for _, t := range schema.Types {
